@@ -27,6 +27,8 @@ KSent == {"sent"}
 KStruct == {"del", "ins", "ren"}
 DirCls == {6, 7}
 KSentCmt == {"sent", "cmt"}
+KLayout == {"brk", "join", "case", "cmt"}
+KLayout1 == {"brk", "join", "case"}
 InsSmall == {1, 2, 3, 7, 11}
 InsAll == 1..12
 Set123 == {1, 2, 3}
